@@ -59,6 +59,40 @@ class Budget(Exception):
     pass
 
 
+class CodeHang(BaseException):
+    """raised by the step alarm inside whatever the main thread is doing"""
+
+
+class Hung(Exception):
+    """one step of the code under test did not end within STEP_HANG real seconds (an endless loop): the run is over and
+    this process is poisoned (a controlled thread may still be spinning)"""
+
+    def __init__(self, kind, label, where):
+        super().__init__(f'{kind}:{label} hangs in {where}')
+        self.kind, self.label, self.where = kind, label, where
+
+
+STEP_HANG = float(__import__('os').environ.get('VERIF_STEP_HANG', '25'))
+
+
+def _alarm(_signum, _frame):
+    raise CodeHang()
+
+
+def _tree_frame(frames):
+    """innermost frame of the code under test in a list of (filename, function, lineno), innermost last"""
+    import os
+
+    tree = os.path.abspath(os.environ.get('VERIF_TREE', '/repo'))
+    here = os.path.dirname(os.path.dirname(os.path.abspath(__file__)))
+    for fn, func, line in reversed(frames):
+        if fn.startswith(here):
+            continue
+        if fn.startswith(tree) or 'site-packages' in fn:
+            return f'{os.path.relpath(fn, tree) if fn.startswith(tree) else fn.split("site-packages/")[-1]}:{func}:{line}'
+    return None
+
+
 class HarnessError(Exception):
     pass
 
@@ -681,6 +715,43 @@ class Sim:
         self.kinds[kind] += 1
         self.log(kind, label)
         self.in_step = (kind, label)
+        armed = self._arm_alarm()
+        try:
+            self._exec(kind, label, obj)
+        except CodeHang:
+            import traceback as _tb
+
+            if kind == 'thread':
+                fr = sys._current_frames().get(obj.thread.ident)
+                frames = [(f.filename, f.name, f.lineno) for f in _tb.extract_stack(fr)] if fr is not None else []
+            else:
+                frames = [(f.filename, f.name, f.lineno) for f in _tb.extract_tb(sys.exc_info()[2])]
+            where = _tree_frame(frames)
+            if where is None:
+                raise HarnessError(f'a step ({kind}:{label}) took more than {STEP_HANG} s inside the harness: {frames[-3:]}')
+            raise Hung(kind, label, where)
+        finally:
+            if armed:
+                import signal
+
+                signal.setitimer(signal.ITIMER_REAL, 0)
+        self.in_step = None
+        # forget finished connections / threads to keep `enabled` cheap
+        for cb in self.after_step:
+            cb(kind, label)
+        return True
+
+    def _arm_alarm(self):
+        import signal
+
+        if threading.current_thread() is not threading.main_thread():
+            return False
+        if signal.getsignal(signal.SIGALRM) is not _alarm:
+            signal.signal(signal.SIGALRM, _alarm)
+        signal.setitimer(signal.ITIMER_REAL, STEP_HANG, 1.0)  # again every second: the code under test has bare excepts
+        return True
+
+    def _exec(self, kind, label, obj):
         if kind == 'thread':
             obj.steps += 1
             obj.sem.release()
@@ -711,11 +782,6 @@ class Sim:
                 raise
             except Exception as e:  # noqa
                 self.on_unhandled(kind, label, e, obj)
-        self.in_step = None
-        # forget finished connections / threads to keep `enabled` cheap
-        for cb in self.after_step:
-            cb(kind, label)
-        return True
 
     def run(self, until=None, max_steps=2000, max_time=None):
         while True:
